@@ -281,8 +281,8 @@ def G3(ctx: Ctx) -> RuleResult:
             for o in _xo(outs):
                 if o.kind != 'return':
                     continue
-                from .terms import reduce_guards as _rg
-                for t, pol in _rg(o.guards):
+                from .terms import reduce_guards as _rg, flat_guards as _fg
+                for t, pol in list(_rg(o.guards)) + list(_fg(o.guards)):
                     if pol and isinstance(t, _Op) and t.op == '==' and op in t.args:
                         other = [a for a in t.args if a != op][0]
                         if isinstance(other, _Const):
